@@ -345,6 +345,46 @@ func c10Escaping(c *fw.Ctx, ti int, value string) {
 	}
 }
 
+// ---- literal text with boundary characters at every position (only blank, tab, CR, LF are trimmed at the ends)
+
+func c10TextSweep(c *fw.Ctx, ch rune, shape int, k int) {
+	cs := strings.Repeat(string(ch), k)
+	if ch == '{' || ch == '}' {
+		return // brace characters next to tags are governed by the printer constraints of the AST sweep
+	}
+	var text string
+	switch shape {
+	case 0:
+		text = cs + "x{{a}}y"
+	case 1:
+		text = "x{{a}}y" + cs
+	case 2:
+		text = "x" + cs + "{{a}}" + cs + "y"
+	case 3:
+		text = cs + "{{#a}}" + cs + "{{/a}}" + cs
+	case 4:
+		text = "{{a}}" + cs + "{{{a}}}"
+	}
+	trimmed := strings.Trim(text, " \t\r\n")
+	if trimmed == "" {
+		return
+	}
+	want := strings.NewReplacer("{{#a}}", "", "{{/a}}", "", "{{{a}}}", "V", "{{a}}", "V").Replace(trimmed)
+	t := mustache.NewMustacheTemplate()
+	var got string
+	var err error
+	pv := fw.Try(func() {
+		if err = t.SetTemplate(text); err == nil {
+			got, err = t.EvaluateWithVariables(map[string]string{"a": "V"})
+		}
+	})
+	c.Eval(1)
+	c.Nontrivial()
+	if pv != nil || err != nil || got != want {
+		c.Violation("render-differs:literal-text", "template %q with a=V renders %q (err %v, panic %v); text must be kept verbatim (only blank, tab, CR, LF are trimmed at the ends): %q", text, got, err, pv, want)
+	}
+}
+
 // ---- accept / reject over lexeme sequences
 
 var mLexemes = []string{"{{", "}}", "{{{", "}}}", "#", "/", "^", "!", "if", "unless", "a", "b", "x"}
@@ -625,7 +665,7 @@ func init() {
 	fw.Register(&fw.Check{
 		ID:    "C10",
 		Level: "model_checking",
-		Rule: "(semantics) every template AST that is a sequence of <=2 (thorough 3) nodes over 11 leaves (texts incl. '}', non-ASCII, blanks; variables and escaped variables a/B; comments) and sections/inverted sections of a/B with bodies of <=2 nodes (thorough: bodies may contain inner sections), printed with rotating spellings (#n/#if n, ^n/#unless n, closed by name, /if or /unless, double/triple braces, inner blanks) plus a dedicated sweep of all 24 spellings, rendered under 16 variable maps (absent/empty/plain/escapable values, keys in either letter case) against a reference renderer; every value of length<=3 (thorough 5) over the 8 escapable characters plus an ASCII and a non-ASCII letter in plain and escaped variables; " +
+		Rule: "(semantics) every template AST that is a sequence of <=2 (thorough 3) nodes over 11 leaves (texts incl. '}', non-ASCII, blanks; variables and escaped variables a/B; comments) and sections/inverted sections of a/B with bodies of <=2 nodes (thorough: bodies may contain inner sections), printed with rotating spellings (#n/#if n, ^n/#unless n, closed by name, /if or /unless, double/triple braces, inner blanks) plus a dedicated sweep of all 24 spellings, rendered under 16 variable maps (absent/empty/plain/escapable values, keys in either letter case) against a reference renderer; literal text made of each of 80 boundary characters at the start, end and middle of a template and inside a section; every value of length<=3 (thorough 5) over the 8 escapable characters plus an ASCII and a non-ASCII letter in plain and escaped variables; " +
 			"(accept/reject) every sequence up to the length bound over 13 template lexemes joined by blanks, classified by a three-valued reference recogniser as well-formed (must be accepted and render per reference), malformed for a listed reason (must be rejected with an error code) or unspecified; the same oracle on the complete single-lexeme edit neighbourhood (insert/delete/replace by any lexeme, swap, duplicate) of well-formed templates with sections nested to depth 3; non-trivial = templates with sections / classified sequences",
 		Assume: []string{"printer constraints keep lexing unambiguous (no '{{' in text, text before a tag does not end in '{', text after a tag does not start with '}', no blanks at the template's ends)", "degenerate tags ({{#if}}, {{a b}}, {{}}, ...) are unspecified"},
 		Spaces: func(tier string) []fw.Space {
@@ -657,6 +697,11 @@ func init() {
 					c10Escaping(c, int(i%4), stringByIndex(mEscAlphabet, i/4))
 				}, Repr: func(i int64) string {
 					return fmt.Sprintf("template %q with a=%q", mEscTemplates[i%4], stringByIndex(mEscAlphabet, i/4))
+				}},
+				{Name: "text-charsweep", N: int64(len(boundaryChars) * 5 * 3), Run: func(c *fw.Ctx, i int64) {
+					c10TextSweep(c, boundaryChars[int(i)/15], int(i)%15/3, []int{1, 2, 65}[int(i)%3])
+				}, Repr: func(i int64) string {
+					return fmt.Sprintf("literal text made of %d x %q in shape %d", []int{1, 2, 65}[int(i)%3], string(boundaryChars[int(i)/15]), int(i)%15/3)
 				}},
 				{Name: "ast-sequences", N: countStrings(len(alts), topLen), Run: func(c *fw.Ctx, i int64) {
 					c10Semantics(c, mSeq(alts, seqByIndex(len(alts), i), int(i%1000)))
